@@ -575,6 +575,10 @@ class H2Protocol:
     async def _create_server_push(
         self, stream_id: int, path: bytes, headers: List[Tuple[bytes, bytes]]
     ) -> None:
+        if self.closed:
+            # The connection has gone, a request started now could not
+            # be responded to (nor ever be told that).
+            return
         push_stream_id = self.connection.get_next_available_stream_id()
         request_headers = [(b":method", b"GET"), (b":path", path)]
         request_headers.extend(headers)
